@@ -141,6 +141,16 @@ def mutants(args):
     results.sort(key=lambda r: (r["property"], r["name"]))
     out = os.path.join(kernel.VERIF, "mutants", "RESULTS.json")
     if not names:
+        # the test-suite column does not depend on the checks: keep it from the last run made with --tests
+        try:
+            old = {(o["property"], o["name"]): o for o in json.load(open(out))}
+        except Exception:
+            old = {}
+        for r in results:
+            o = old.get((r["property"], r["name"]), {})
+            for k in ("tests", "tests_tail"):
+                if k not in r and k in o:
+                    r[k] = o[k]
         json.dump(results, open(out, "w"), indent=1, sort_keys=True)
     caught = sum(1 for r in results if r["status"] == "caught")
     print("mutants: %d/%d caught" % (caught, len(results)))
